@@ -7,7 +7,7 @@ import random
 
 VERIF = os.path.dirname(os.path.dirname(os.path.abspath(__file__)))
 REPO = os.environ.get('WCMATCH_REPO', '/repo')
-MODEL_BIN = os.path.join(VERIF, 'driver', 'wcmodel')
+MODEL_BIN = os.environ.get('WCMODEL_BIN') or os.path.join(VERIF, 'driver', 'wcmodel')
 
 
 def import_impl():
